@@ -22,6 +22,7 @@ pub static REUSES: AtomicU64 = AtomicU64::new(0);
 pub static FRESH_FOR_LATER_REQUEST: AtomicU64 = AtomicU64::new(0);
 pub static CLOSING_BEYOND_LIMIT: AtomicU64 = AtomicU64::new(0);
 pub static WAITING_FOR_SERVER: AtomicU64 = AtomicU64::new(0);
+pub static REUSE_AFTER_UNSENT_BODY: AtomicU64 = AtomicU64::new(0);
 
 impl Scenario for Scen {
     fn name(&self) -> String {
@@ -127,6 +128,7 @@ fn main() {
             "later_requests_that_got_a_fresh_connection": FRESH_FOR_LATER_REQUEST.load(Ordering::Relaxed),
             "executions_where_open_plus_closing_connections_exceeded_the_limit_(informational)": CLOSING_BEYOND_LIMIT.load(Ordering::Relaxed),
             "executions_ending_with_a_consumer_legitimately_waiting_for_the_server": WAITING_FOR_SERVER.load(Ordering::Relaxed),
+            "requests_written_on_a_connection_whose_previous_Expect_request_body_was_never_sent_(informational)": REUSE_AFTER_UNSENT_BODY.load(Ordering::Relaxed),
         }),
     );
     ev.set("violating_executions", stats.violating_executions);
